@@ -1,5 +1,5 @@
 (* Server4Run.v — executable cases for the HandleMsg4 / LoadPlugins correspondence (C11, C13, C15) *)
-From Verif Require Import Base Net Msg4 IpcalcRun Server4.
+From Verif Require Import Base Net Msg4 IpcalcRun Chain Server4.
 Open Scope N_scope.
 
 (* the synthetic plugins the harness registers through plugins.RegisterPlugin *)
